@@ -34,6 +34,9 @@ a = 42
 q = 43
 j = 44
 t = 45
+# module globals spelled like the locals of the function that builds the query (build's c1, c2): the local wins
+c1 = -990
+c2 = -991
 GS = "pt"
 GL = [1, 2]
 GNONE = None
@@ -260,8 +263,9 @@ def snapshot_for(f, src_lambda: ast.AST):
     from func_adl.util_ast import global_getclosurevars
 
     cv = global_getclosurevars(f)
-    lookup = dict(cv.nonlocals)
-    lookup.update(cv.globals)
+    # Python's scoping: a variable of an enclosing function hides a module global of the same name
+    lookup = dict(cv.globals)
+    lookup.update(cv.nonlocals)
     names = {n.id for n in ast.walk(src_lambda) if isinstance(n, ast.Name)}
     attrs_used = {n.attr for n in ast.walk(src_lambda) if isinstance(n, ast.Attribute)}
     snap = []
